@@ -1245,7 +1245,10 @@ func (c *cluster) unprotectedGenerateResizeJobByAction(nodeAction nodeAction) (*
 
 	for id, sources := range multiIndex {
 		// If a host doesn't need to request data, mark it as complete.
-		if len(sources) == 0 {
+		// (Not the node that is joining: the instruction is also what brings
+		// it the schema, so it gets one even when it has nothing to fetch.)
+		joining := nodeAction.action == resizeJobActionAdd && nodeAction.node != nil && id == nodeAction.node.ID
+		if len(sources) == 0 && !joining {
 			j.IDs[id] = true
 			continue
 		}
